@@ -268,8 +268,11 @@ def session_facts(repo: Path) -> dict:
                 raise Unsupported(f"_import.py: {name} declares {ast.unparse(n)}")
             if isinstance(n, (ast.FunctionDef, ast.Lambda, ast.ClassDef)) and n is not fn:
                 raise Unsupported(f"_import.py: {name} defines a nested function / class")
-            if isinstance(n, ast.Assign) and isinstance(n.value, ast.Call) and all(isinstance(t, ast.Name) for t in n.targets):
-                local_objs.update(t.id for t in n.targets)       # an object created by a call in this function
+            fresh = (ast.Call, ast.Dict, ast.List, ast.Set, ast.DictComp, ast.ListComp, ast.SetComp)
+            if isinstance(n, ast.Assign) and isinstance(n.value, fresh) and all(isinstance(t, ast.Name) for t in n.targets):
+                local_objs.update(t.id for t in n.targets)       # an object created in this function
+            if isinstance(n, ast.AnnAssign) and isinstance(n.target, ast.Name) and isinstance(n.value, fresh):
+                local_objs.add(n.target.id)
         for n in ast.walk(fn):
             targets = []
             if isinstance(n, ast.Assign):
@@ -300,11 +303,12 @@ def session_facts(repo: Path) -> dict:
                     raise Unsupported(f"_import.py: {name} touches the file system: {ast.unparse(n)[:80]}")
                 if a in ("setdefault", "update", "append", "add", "pop", "clear", "extend", "insert", "remove"):
                     r = n.func.value
-                    while isinstance(r, (ast.Attribute, ast.Subscript)):
-                        r = r.value
+                    while isinstance(r, (ast.Attribute, ast.Subscript, ast.Call)):
+                        r = r.func.value if isinstance(r, ast.Call) and isinstance(r.func, ast.Attribute) else (
+                            r.value if not isinstance(r, ast.Call) else ast.Constant(None))
                     if not (isinstance(r, ast.Name) and r.id in local_objs):
                         raise Unsupported(f"_import.py: {name} mutates a non-local container: {ast.unparse(n)[:80]}")
-    for need in ("read", "_codegen", "import_from_path", "valid_filename"):
+    for need in ("read", "_codegen", "import_from_path", "valid_filename"):  # (_check_unique_names is optional)
         if need not in fns:
             raise Unsupported(f"_import.py: function {need} not found")
     cg = ast.unparse(fns["_codegen"])
@@ -312,6 +316,8 @@ def session_facts(repo: Path) -> dict:
         raise Unsupported("_codegen: the file written is not <tmp dir>/<name>.py with the generated code")
     body = [st for st in fns["read"].body if not (isinstance(st, ast.Expr) and isinstance(st.value, ast.Constant))]
     src = [ast.unparse(st) for st in body]
+    if src and src[0] == "_check_unique_names(file)":   # a pure check (raises or returns None) before parsing
+        body, src = body[1:], src[1:]
     if len(src) != 5 or src[0] != "model = pysbml.load_and_transform_model(file)" \
             or src[3] != "model_fn = import_from_path(out_name, _codegen(out_name, model))" or src[4] != "return model_fn()":
         raise Unsupported("read: statements not recognised:\n" + "\n".join(src))
